@@ -48,6 +48,7 @@ OkPair == /\ (R.ceq => R.feq)                                 \* the oracle itse
           /\ (R.pfound <=> R.feq)                             \* packet item
           /\ (R.kfound <=> R.ceq)                             \* table key: canonical equivalence only
           /\ (R.ceq => R.kspell)                              \* ... enumerated in the spelling used last
+          /\ (R.kcfound <=> R.ceq) /\ R.kcself /\ (R.kpfound <=> R.ceq)    \* ... also in a clone of the table and in a packet's copy
           \* the parser applies the same equivalence to what it reads: exactly one duplicate diagnosis for equivalent
           \* spellings (two scalars, two names of one loop header, two block headers, two save frames), none otherwise
           /\ (IF R.feq THEN R.psdup /\ R.pldup /\ R.pbdup /\ R.pfdup ELSE R.psnone /\ R.plnone /\ R.pbnone /\ R.pfnone)
